@@ -246,7 +246,8 @@ Definition exec (me : N) (r : role) (alt : nat) (nd : node) (a : assoc) (t : thr
       end
     | Some (GTimer, k) => if a_hb_armed a then Ok (nd, set_hb_armed a false, goto t k) else Blocked
     | Some (GRecvNpd, k) =>
-      if negb (n_npdnil nd) && ch_ready (n_npd nd) then Ok (nset_npdnil nd true, a, goto t k) else Blocked
+      (* nobody sends on newPeersDone: the receive is ready iff the channel is closed *)
+      if negb (n_npdnil nd) && cclosed (n_npd nd) then Ok (nset_npdnil nd true, a, goto t k) else Blocked
     end
   | RecvForget c k_ok k_closed =>
     match ch_recv (get_ch nd a c) with
